@@ -94,11 +94,11 @@ def World.view (w : World) (o : Nat) : World × Nat :=
 
 /-- Mutators of the observable state.  Only some of them touch the memo. -/
 inductive Mut where
-  /-- T, P, phase, in-place flow edits, scaling, mixing, emptying, linking, writes through
-  a view or a linked stream, `phases=` with an unchanged set, `_reset_thermo` with the same package:
+  /-- T, P, phase, in-place flow edits, scaling, mixing, emptying, `link_with(flow=False, TP=False)`, writes
+  through a view or a linked stream, `phases=` with an unchanged set, `_reset_thermo` with the same package:
   the memo is not touched (it is content-keyed) -/
   | state
-  /-- `unlink`, `MultiStream.phases = <different set>`, `_reset_thermo(<other package>)`: `reset_cache()` -/
+  /-- `unlink`, `link_with(flow or TP)` (repair 9090df2), `MultiStream.phases = <different set>`: `reset_cache()` -/
   | resets
   /-- `MultiStream.phase = x` (collapse to single phase): `_streams.clear()` — the (possibly
   shared) view dict is emptied in place, memo untouched -/
